@@ -14,6 +14,8 @@ namespace Zvbi.Demux
 open Zvbi.Hamm (rev8)
 open Zvbi.Mux.EnParse (Line Svc DataUnit Pes unitLine unitsLines lofpLine encUnits parseUnits parseUnitsF allFF)
 
+variable {cfg : SrcCfg}
+
 /-- the `vbi_sliced` the demultiplexer delivers for a line of the stream: service id as libzvbi
 reports it (Teletext B 3, VPS 4, WSS 0x400, Caption first field 8), the frame line, the payload
 (WSS: the 14 bits and the two reserved bits, which the standard sets to 1) -/
@@ -54,14 +56,16 @@ theorem rev8_mod (c : Nat) : rev8 c = rev8 (c % 256) := by
 def addrFrame (f : Frame) (lofp l : Nat) : Frame :=
   { f with lastField := if l < 313 then 0 else 1, lastFieldLine := lofp % 32, lastFrameLine := l, nDu := f.nDu + 1 }
 
-/-- `line_address` for a unit with a defined line number -/
-theorem lineAddress_def (f : Frame) (lofp l : Nat) (h : lofpLine lofp = some l) (h0 : l ≠ 0)
-    (hlen : f.lines.length < 64) :
-    lineAddress f lofp true =
-      if l ≤ f.lastFrameLine then (if f.nDu > 0 then .err else .newFrame) else .ok (addrFrame f lofp l) l := by
+/-- `line_address` for a unit with a defined line number, both shapes of the source, any fill -/
+theorem lineAddress_def (f : Frame) (lofp l : Nat) (h : lofpLine lofp = some l) (h0 : l ≠ 0) :
+    lineAddress cfg f lofp true =
+      if cfg.lateOverflow = false ∧ f.lines.length ≥ 64 then .err
+      else if l ≤ f.lastFrameLine then (if f.nDu > 0 then .err else .newFrame)
+      else if f.lines.length ≥ 64 then .err
+      else .ok (addrFrame f lofp l) l := by
   unfold lineAddress
-  rw [if_neg (by simp only [N_SLICED]; omega), lofp_agree lofp l h h0]
-  simp only [h0, ne_eq, not_false_eq_true, if_true]
+  rw [lofp_agree lofp l h h0]
+  simp only [h0, ne_eq, not_false_eq_true, if_true, N_SLICED]
   rfl
 
 
@@ -69,25 +73,69 @@ theorem lineAddress_def (f : Frame) (lofp l : Nat) (h : lofpLine lofp = some l) 
 def storeFrame (f : Frame) (lofp : Nat) (l : Line) : Frame :=
   pushLine (addrFrame f lofp l.line) (ofLine l).id l.line (ofLine l).data
 
-def lineRes (f : Frame) (lofp : Nat) (l : Line) : DU :=
-  if l.line ≤ f.lastFrameLine then (if f.nDu > 0 then .fail f .err else .fail f .newFrame)
+/-- what a line unit with the defined line `l` does, in both shapes of `line_address`: the overflow
+error comes first (old shape) or after the frame boundary / line order tests (fix dvb-demux-full-frame) -/
+def lineRes (cfg : SrcCfg) (f : Frame) (lofp : Nat) (l : Line) : DU :=
+  if cfg.lateOverflow = false ∧ f.lines.length ≥ 64 then .fail f .err
+  else if l.line ≤ f.lastFrameLine then (if f.nDu > 0 then .fail f .err else .fail f .newFrame)
+  else if f.lines.length ≥ 64 then .fail f .err
   else .store (storeFrame f lofp l)
+
+/-- with room in the buffer the shape of the source does not matter -/
+theorem lineRes_room (f : Frame) (lofp : Nat) (l : Line) (hf : f.lines.length < 64) :
+    lineRes cfg f lofp l =
+      if l.line ≤ f.lastFrameLine then (if f.nDu > 0 then .fail f .err else .fail f .newFrame)
+      else .store (storeFrame f lofp l) := by
+  unfold lineRes
+  rw [if_neg (by omega)]
+  split
+  · rfl
+  · rw [if_neg (by omega)]
+
+/-- fix dvb-demux-full-frame: the first unit of a packet closes the frame under assembly also when the
+buffer is full -/
+theorem lineRes_closes (hlo : cfg.lateOverflow = true) (f : Frame) (lofp : Nat) (l : Line)
+    (hle : l.line ≤ f.lastFrameLine) (hn : f.nDu = 0) : lineRes cfg f lofp l = .fail f .newFrame := by
+  unfold lineRes
+  rw [if_neg (by simp [hlo]), if_pos hle, if_neg (by omega)]
+
+/-- the frame boundary rule, in whichever shape lets it be reached: room in the buffer, or the repaired
+`line_address` -/
+theorem lineRes_newFrame (f : Frame) (lofp : Nat) (l : Line) (hcap : cfg.lateOverflow = true ∨ f.lines.length < 64)
+    (hle : l.line ≤ f.lastFrameLine) (hn : f.nDu = 0) : lineRes cfg f lofp l = .fail f .newFrame := by
+  rcases hcap with hlo | hroom
+  · exact lineRes_closes hlo f lofp l hle hn
+  · rw [lineRes_room f lofp l hroom, if_pos hle, if_neg (by omega)]
+
+/-- a full buffer and a line beyond the frame's last line: the overflow error, in both shapes -/
+theorem lineRes_overflow (f : Frame) (lofp : Nat) (l : Line) (hf : f.lines.length ≥ 64)
+    (hgt : f.lastFrameLine < l.line) : lineRes cfg f lofp l = .fail f .err := by
+  have h1 : ¬ l.line ≤ f.lastFrameLine := by omega
+  unfold lineRes
+  simp only [h1, hf, if_true, if_false, ite_self]
 
 theorem dataUnit_ttx (f : Frame) (id len p0 p1 : Nat) (r tail : Bytes) (l : Nat)
     (hid : id = 2 ∨ id = 3) (hlen : 44 ≤ len) (hr : 42 ≤ r.length) (hp1 : p1 = 0xE4)
     (hl : lofpLine p0 = some l) (h0 : l ≠ 0) (hoff : p0 % 32 = 0 ∨ (7 ≤ p0 % 32 ∧ p0 % 32 ≤ 22))
-    (hf : f.lines.length < 64) :
-    dataUnit f (id :: len :: p0 :: p1 :: (r ++ tail)) id len
-      = lineRes f p0 ⟨.ttx, l, (r.take 42).map rev8⟩ := by
+    :
+    dataUnit cfg f (id :: len :: p0 :: p1 :: (r ++ tail)) id len
+      = lineRes cfg f p0 ⟨.ttx, l, (r.take 42).map rev8⟩ := by
   unfold dataUnit lineRes
   simp only [DU_TTX_NON_SUBTITLE, DU_TTX_SUBTITLE, hid, if_true]
   rw [if_neg (by omega)]
   simp only [List.getElem?_cons_succ, List.getElem?_cons_zero, hp1, ne_eq, not_true_eq_false, if_false]
-  rw [if_neg (by omega), lineAddress_def f p0 l hl h0 hf]
+  rw [if_neg (by omega), lineAddress_def f p0 l hl h0]
+  by_cases he : cfg.lateOverflow = false ∧ f.lines.length ≥ 64
+  · simp only [he, and_self, if_true]
+  rw [if_neg he, if_neg he]
   by_cases hle : l ≤ f.lastFrameLine
   · simp only [hle, if_true]
     by_cases hn : f.nDu > 0 <;> simp [hn]
   · simp only [hle, if_false]
+    by_cases hfull : f.lines.length ≥ 64
+    · simp only [hfull, if_true]
+    rw [if_neg hfull, if_neg hfull]
+    simp only []
     have hfl : (addrFrame f p0 l).lastFieldLine = p0 % 32 := rfl
     rw [hfl, if_neg (by omega)]
     have ht : ((id :: len :: p0 :: 228 :: (r ++ tail)).drop 4).take 42 = r.take 42 := by
@@ -98,18 +146,25 @@ theorem dataUnit_ttx (f : Frame) (id len p0 p1 : Nat) (r tail : Bytes) (l : Nat)
 
 theorem dataUnit_vps (f : Frame) (len p0 : Nat) (r tail : Bytes)
     (hlen : 14 ≤ len) (hr : 13 ≤ r.length)
-    (hl : lofpLine p0 = some 16) (hf : f.lines.length < 64) :
-    dataUnit f (0xC3 :: len :: p0 :: (r ++ tail)) 0xC3 len
-      = lineRes f p0 ⟨.vps, 16, r.take 13⟩ := by
+    (hl : lofpLine p0 = some 16) :
+    dataUnit cfg f (0xC3 :: len :: p0 :: (r ++ tail)) 0xC3 len
+      = lineRes cfg f p0 ⟨.vps, 16, r.take 13⟩ := by
   unfold dataUnit lineRes
   simp only [DU_TTX_NON_SUBTITLE, DU_TTX_SUBTITLE, DU_VPS, Nat.reduceEqDiff, or_self, if_false, if_true]
   rw [if_neg (by omega)]
   simp only [List.getElem?_cons_succ, List.getElem?_cons_zero]
-  rw [lineAddress_def f p0 16 hl (by decide) hf]
+  rw [lineAddress_def f p0 16 hl (by decide)]
+  by_cases he : cfg.lateOverflow = false ∧ f.lines.length ≥ 64
+  · simp only [he, and_self, if_true]
+  rw [if_neg he, if_neg he]
   by_cases hle : 16 ≤ f.lastFrameLine
   · simp only [hle, if_true]
     by_cases hn : f.nDu > 0 <;> simp [hn]
-  · simp only [hle, if_false, ne_eq, not_true_eq_false]
+  · simp only [hle, if_false]
+    by_cases hfull : f.lines.length ≥ 64
+    · simp only [hfull, if_true]
+    rw [if_neg hfull, if_neg hfull]
+    simp only [ne_eq, not_true_eq_false, if_false]
     have ht : ((195 :: len :: p0 :: (r ++ tail)).drop 3).take 13 = r.take 13 := by
       simp only [List.drop_succ_cons, List.drop_zero]
       exact List.take_append_of_le_length hr
@@ -118,18 +173,25 @@ theorem dataUnit_vps (f : Frame) (len p0 : Nat) (r tail : Bytes)
 
 theorem dataUnit_wss (f : Frame) (len p0 p1 p2 : Nat) (r tail : Bytes)
     (hlen : 3 ≤ len) (hp2 : p2 % 4 = 3)
-    (hl : lofpLine p0 = some 23) (hf : f.lines.length < 64) :
-    dataUnit f (0xC4 :: len :: p0 :: p1 :: p2 :: (r ++ tail)) 0xC4 len
-      = lineRes f p0 ⟨.wss, 23, [rev8 p1, rev8 p2 % 64]⟩ := by
+    (hl : lofpLine p0 = some 23) :
+    dataUnit cfg f (0xC4 :: len :: p0 :: p1 :: p2 :: (r ++ tail)) 0xC4 len
+      = lineRes cfg f p0 ⟨.wss, 23, [rev8 p1, rev8 p2 % 64]⟩ := by
   unfold dataUnit lineRes
   simp only [DU_TTX_NON_SUBTITLE, DU_TTX_SUBTITLE, DU_VPS, DU_WSS, Nat.reduceEqDiff, or_self, if_false, if_true]
   rw [if_neg (by omega)]
   simp only [List.getElem?_cons_succ, List.getElem?_cons_zero]
-  rw [lineAddress_def f p0 23 hl (by decide) hf]
+  rw [lineAddress_def f p0 23 hl (by decide)]
+  by_cases he : cfg.lateOverflow = false ∧ f.lines.length ≥ 64
+  · simp only [he, and_self, if_true]
+  rw [if_neg he, if_neg he]
   by_cases hle : 23 ≤ f.lastFrameLine
   · simp only [hle, if_true]
     by_cases hn : f.nDu > 0 <;> simp [hn]
-  · simp only [hle, if_false, ne_eq, not_true_eq_false]
+  · simp only [hle, if_false]
+    by_cases hfull : f.lines.length ≥ 64
+    · simp only [hfull, if_true]
+    rw [if_neg hfull, if_neg hfull]
+    simp only [ne_eq, not_true_eq_false, if_false]
     have hw : rev8 p2 % 64 + 192 = rev8 p2 := by
       rw [rev8_mod p2]
       exact wss_top (p2 % 256) (Nat.mod_lt _ (by decide)) (by omega)
@@ -139,31 +201,38 @@ theorem dataUnit_wss (f : Frame) (len p0 p1 p2 : Nat) (r tail : Bytes)
 
 theorem dataUnit_cc (f : Frame) (len p0 p1 p2 : Nat) (r tail : Bytes)
     (hlen : 3 ≤ len)
-    (hl : lofpLine p0 = some 21) (hf : f.lines.length < 64) :
-    dataUnit f (0xC5 :: len :: p0 :: p1 :: p2 :: (r ++ tail)) 0xC5 len
-      = lineRes f p0 ⟨.cc, 21, [rev8 p1, rev8 p2]⟩ := by
+    (hl : lofpLine p0 = some 21) :
+    dataUnit cfg f (0xC5 :: len :: p0 :: p1 :: p2 :: (r ++ tail)) 0xC5 len
+      = lineRes cfg f p0 ⟨.cc, 21, [rev8 p1, rev8 p2]⟩ := by
   unfold dataUnit lineRes
   simp only [DU_TTX_NON_SUBTITLE, DU_TTX_SUBTITLE, DU_VPS, DU_WSS, DU_ZVBI_WSS_CPR1204, DU_ZVBI_CC_525, DU_CC,
     Nat.reduceEqDiff, or_self, if_false, if_true]
   rw [if_neg (by omega)]
   simp only [List.getElem?_cons_succ, List.getElem?_cons_zero]
-  rw [lineAddress_def f p0 21 hl (by decide) hf]
+  rw [lineAddress_def f p0 21 hl (by decide)]
+  by_cases he : cfg.lateOverflow = false ∧ f.lines.length ≥ 64
+  · simp only [he, and_self, if_true]
+  rw [if_neg he, if_neg he]
   by_cases hle : 21 ≤ f.lastFrameLine
   · simp only [hle, if_true]
     by_cases hn : f.nDu > 0 <;> simp [hn]
-  · simp only [hle, if_false, ne_eq, not_true_eq_false]
+  · simp only [hle, if_false]
+    by_cases hfull : f.lines.length ≥ 64
+    · simp only [hfull, if_true]
+    rw [if_neg hfull, if_neg hfull]
+    simp only [ne_eq, not_true_eq_false, if_false]
     simp only [List.drop_succ_cons, List.drop_zero, List.take_succ_cons, List.take_zero, List.length_cons,
       List.length_nil, if_true, List.map_cons, List.map_nil]
     rfl
 
-theorem dataUnit_stuffing (f : Frame) (d : Bytes) (len : Nat) : dataUnit f d 0xFF len = .skip := by
+theorem dataUnit_stuffing (f : Frame) (d : Bytes) (len : Nat) : dataUnit cfg f d 0xFF len = .skip := by
   unfold dataUnit
   simp [DU_TTX_NON_SUBTITLE, DU_TTX_SUBTITLE, DU_VPS, DU_WSS, DU_ZVBI_WSS_CPR1204, DU_ZVBI_CC_525, DU_CC]
 
 /-- a line unit the reader accepts (defined line number) does to the frame what `lineRes` says -/
 theorem dataUnit_line (f : Frame) (u : DataUnit) (l : Line) (tail : Bytes)
-    (hu : unitLine u = some (some l)) (h0 : l.line ≠ 0) (hf : f.lines.length < 64) :
-    ∃ lofp, dataUnit f (u.id :: u.payload.length :: (u.payload ++ tail)) u.id u.payload.length = lineRes f lofp l := by
+    (hu : unitLine u = some (some l)) (h0 : l.line ≠ 0) :
+    ∃ lofp, dataUnit cfg f (u.id :: u.payload.length :: (u.payload ++ tail)) u.id u.payload.length = lineRes cfg f lofp l := by
   obtain ⟨id, p⟩ := u
   unfold unitLine at hu
   simp only at hu ⊢
@@ -194,7 +263,7 @@ theorem dataUnit_line (f : Frame) (u : DataUnit) (l : Line) (tail : Bytes)
                 List.drop_zero] at hc1 hc3 hlv hoff ⊢
               refine ⟨p0, ?_⟩
               rw [List.cons_append, List.cons_append]
-              exact dataUnit_ttx f id _ p0 p1 r tail lv hid hc1 (by omega) hc3 hlv h0 (by omega) hf
+              exact dataUnit_ttx f id _ p0 p1 r tail lv hid hc1 (by omega) hc3 hlv h0 (by omega)
     · split at hu
       · -- VPS
         rename_i hid
@@ -215,7 +284,7 @@ theorem dataUnit_line (f : Frame) (u : DataUnit) (l : Line) (tail : Bytes)
                 ne_eq, Decidable.not_not] at hc1 hlv ⊢
               refine ⟨p0, ?_⟩
               rw [List.cons_append]
-              exact dataUnit_vps f _ p0 r tail hc1 (by omega) hlv hf
+              exact dataUnit_vps f _ p0 r tail hc1 (by omega) hlv
       · split at hu
         · -- WSS
           rename_i hid
@@ -240,7 +309,7 @@ theorem dataUnit_line (f : Frame) (u : DataUnit) (l : Line) (tail : Bytes)
                   ne_eq, Decidable.not_not] at hc1 hc3 hlv ⊢
                 refine ⟨p0, ?_⟩
                 simp only [List.cons_append]
-                exact dataUnit_wss f _ p0 p1 p2 r tail hc1 hc3 hlv hf
+                exact dataUnit_wss f _ p0 p1 p2 r tail hc1 hc3 hlv
         · split at hu
           · -- Caption
             rename_i hid
@@ -263,11 +332,11 @@ theorem dataUnit_line (f : Frame) (u : DataUnit) (l : Line) (tail : Bytes)
                     ne_eq, Decidable.not_not] at hc1 hlv ⊢
                   refine ⟨p0, ?_⟩
                   simp only [List.cons_append]
-                  exact dataUnit_cc f _ p0 p1 p2 r tail hc1 hlv hf
+                  exact dataUnit_cc f _ p0 p1 p2 r tail hc1 hlv
           · cases hu
 
 theorem dataUnit_stuff_unit (f : Frame) (u : DataUnit) (d : Bytes) (hu : unitLine u = some none) :
-    dataUnit f d u.id u.payload.length = .skip := by
+    dataUnit cfg f d u.id u.payload.length = .skip := by
   have hid : u.id = 0xFF := by
     unfold unitLine at hu
     simp only at hu
